@@ -46,7 +46,7 @@ def gen_part(rng, tok, p_exc=0.0, kinds=("fail", "error"), p_write=0.3):
         part["rawbytes"] = True
     if rng.random() < 0.3:
         # ("noframes" takes effect in clean-ups only: a built-in registered with addCleanup fails)
-        part["excStyle"] = rng.choice(["cause", "context", "unhashable", "unhashable-cause", "syntax", "noframes"])
+        part["excStyle"] = rng.choice(["cause", "context", "unhashable", "unhashable-cause", "syntax", "noframes", "nomsg"])
     return part
 
 
